@@ -68,28 +68,28 @@ var pionMethods = map[string]string{
 
 // functions bracketed by Enter/Exit probes
 var probeFuncs = map[string]bool{
-	"rtpconn.(*rtpDownTrack).Write": true,
-	"rtpconn.(*rtpDownTrack).write": true,
-	"rtpconn.gotNACK":               true,
-	"rtpconn.sendSequence":          true,
-	"rtpconn.handleClientMessage":   true,
-	"rtpconn.handleAction":          true,
-	"rtpconn.readLoop":              true,
-	"rtpconn.rtpWriterLoop":         true,
-	"rtpconn.nackWriter":            true,
-	"packetcache.(*Cache).Store":    true,
-	"rtpconn.sendUpRTCP":            true,
-	"rtpconn.handleReport":          true,
-	"rtpconn.rtcpDownListener":      true,
+	"rtpconn.(*rtpDownTrack).Write":       true,
+	"rtpconn.(*rtpDownTrack).write":       true,
+	"rtpconn.gotNACK":                     true,
+	"rtpconn.sendSequence":                true,
+	"rtpconn.handleClientMessage":         true,
+	"rtpconn.handleAction":                true,
+	"rtpconn.readLoop":                    true,
+	"rtpconn.rtpWriterLoop":               true,
+	"rtpconn.nackWriter":                  true,
+	"packetcache.(*Cache).Store":          true,
+	"rtpconn.sendUpRTCP":                  true,
+	"rtpconn.handleReport":                true,
+	"rtpconn.rtcpDownListener":            true,
 	"rtpconn.(*rtpDownTrack).adjustLayer": true,
 	"rtpconn.(*rtpDownTrack).updateRate":  true,
-	"diskwriter.(*diskTrack).Write": true,
-	"diskwriter.fetch":              true,
-	"group.AddClient":               true,
-	"group.DelClient":               true,
-	"token.(*state).rewrite":        true,
-	"token.(*state).add":            true,
-	"group.rewriteDescriptionFile":  true,
+	"diskwriter.(*diskTrack).Write":       true,
+	"diskwriter.fetch":                    true,
+	"group.AddClient":                     true,
+	"group.DelClient":                     true,
+	"token.(*state).rewrite":              true,
+	"token.(*state).add":                  true,
+	"group.rewriteDescriptionFile":        true,
 }
 
 // designated fields for the race detector: "pkg.Type.field"
@@ -104,7 +104,7 @@ var raceFields = map[string]bool{
 	"rtpconn.WhipClient.permissions": true, "rtpconn.WhipClient.connection": true, "rtpconn.WhipClient.group": true,
 	"rtpconn.rtpUpConnection.tracks": true, "rtpconn.rtpUpConnection.local": true, "rtpconn.rtpUpConnection.replace": true,
 	"rtpconn.rtpDownConnection.tracks": true,
-	"diskwriter.Client.down":            true, "diskwriter.Client.closed": true,
+	"diskwriter.Client.down":           true, "diskwriter.Client.closed": true,
 }
 
 // types all of whose fields are designated
@@ -408,6 +408,23 @@ func (rw *rewriter) postCall(c *astutil.Cursor, n *ast.CallExpr) {
 			}
 			c.Replace(call(hook, x, rw.site(n)))
 			rw.mark("lock")
+		} else if recvName == "Pool" {
+			if len(s.Index()) != 1 {
+				problem(rw.fset, n.Pos(), "method of an embedded sync.Pool is not supported by the instrumenter")
+				return
+			}
+			x := se.X
+			if !isPointer(rw.info.TypeOf(x)) {
+				x = &ast.UnaryExpr{Op: token.AND, X: x}
+			}
+			switch f.Name() {
+			case "Get":
+				c.Replace(call("PoolGet", x))
+				rw.mark("pool")
+			case "Put":
+				c.Replace(call("PoolPut", append([]ast.Expr{x}, n.Args...)...))
+				rw.mark("pool")
+			}
 		} else if recvName == "Cond" || recvName == "WaitGroup" || recvName == "Once" {
 			problem(rw.fset, n.Pos(), "sync.%s is not supported by the instrumenter", recvName)
 		}
